@@ -337,6 +337,12 @@ def call_values(I, c, args, e=None, env=None):
         if a_.expr == b_.expr:
             return a_ if a_.size is not None else b_
         return Num(Expr.atom(("call", name, a_.expr, b_.expr)))
+    if name == "is_power_of_two" and args and isinstance(args[0], Num):
+        # for an unsigned integer: exactly one bit set
+        pc = Expr.atom(("call", "popcount", args[0].expr))
+        c_ = Cond("key", "%s == 1" % pc.key(), tree=("cmp", "Eq", pc.key(), Expr.const(1).key()))
+        c_.cmp = ("Eq", pc, Expr.const(1))
+        return c_
     if name == "count_ones":
         return Num(Expr.atom(("call", "popcount", as_num(args[0]).expr)))
 
@@ -596,7 +602,17 @@ def fold_combine(I, init, acc, res, k, cls, gs):
             raise Undecided("fold result shape")
         delta = (res.expr - acc.expr).simplified()
         if delta.has_atom(lambda a: a[0] == "acc"):
-            # multiplicative? res = acc * g
+            # bit-or accumulation: res = acc | g(item) with g free of acc  ->  init | ⋃_k g
+            rt = res.expr.simplified().terms
+            if len(rt) == 1 and rt[0].coeff == 1 and len(rt[0].atoms) == 1 and rt[0].atoms[0][1] == 1 and not rt[0].binders and not rt[0].guards:
+                at = rt[0].atoms[0][0]
+                if at[0] == "call" and at[1] == "bitor" and len(at) == 4 and not gs:
+                    ops = [at[2], at[3]]
+                    mine = [o for o in ops if o == acc.expr]
+                    other = [o for o in ops if o != acc.expr]
+                    if len(mine) == 1 and len(other) == 1 and not other[0].has_atom(lambda a: a[0] == "acc"):
+                        from .expr import bitop
+                        return Num(bitop("bitor", init.expr, Expr.atom(("bitunion", k, cls, other[0]))))
             raise Undecided("fold step is not `acc + g(item)`")
         return Num(init.expr + delta.guarded(gs).sum_over(k, cls))
     if isinstance(init, Struct) and isinstance(res, Struct):
